@@ -660,6 +660,12 @@ func (w *Worker) RunBatch(item WorkItem, maxPaths int, seed uint64) (res *BatchR
 	for len(stack) > 0 && res.Paths < maxPaths {
 		it := stack[len(stack)-1]
 		stack = stack[:len(stack)-1]
+		if len(intern) > 1_500_000 {
+			// terms are per-path objects: the hash-consing table is only a cache and is dropped
+			// between paths when it grows large (long thorough runs)
+			intern = map[string]*term{}
+			termSeq = 0
+		}
 		w.runPath(it, seed)
 		stack = append(stack, ex.work...)
 		ex.work = nil
